@@ -124,6 +124,11 @@ def materialise(root, entries, names=None, contents=None):
         elif k == "file":
             if e.get("hl"):
                 later.append(e); continue
+            if "sparse" in e:
+                write_cells(path, e["sparse"], 4096, fid=5)
+                with open(path, "rb") as f:
+                    contents.register(e.get("c", "SPARSE"), f.read())
+                continue
             data = e["data"] if "data" in e else contents.get(e.get("c", "E"))
             if "data" in e and "c" in e:
                 contents.register(e["c"], data)
